@@ -137,10 +137,16 @@ func nativeRunCases(p *interp.Program, cases []nativeCase, workDir string, race 
 		// generate the test file
 		var sb strings.Builder
 		sb.WriteString("//go:build verif\n\npackage " + pkgName + "\n\nimport (\n\t\"os\"\n\t\"strconv\"\n\t\"testing\"\n\n\t\"github.com/scigolib/hdf5/internal/vrt\"\n)\n\n")
-		sb.WriteString("func TestVerifReplay(t *testing.T) {\n\tcases := []struct {\n\t\th   string\n\t\tfn  func()\n\t\tvec []uint64\n\t}{\n")
+		sb.WriteString("func TestVerifReplay(t *testing.T) {\n\tcases := []struct {\n\t\th    string\n\t\tfn   func()\n\t\treps int\n\t\tvec  []uint64\n\t}{\n")
 		for _, ci := range idxs {
 			c := cases[ci]
-			sb.WriteString(fmt.Sprintf("\t\t{%q, %s, []uint64{", c.harness, c.harness))
+			// a counterexample of a schedule-mode harness depends on the interleaving, which the native run cannot force:
+			// it is repeated (up to 12 times) until the violation shows
+			reps := 1
+			if c.kind == "cex" && strings.Contains(c.harness, "_sched") {
+				reps = 12
+			}
+			sb.WriteString(fmt.Sprintf("\t\t{%q, %s, %d, []uint64{", c.harness, c.harness, reps))
 			for j, v := range c.vec {
 				if j > 0 {
 					sb.WriteString(", ")
@@ -150,7 +156,7 @@ func nativeRunCases(p *interp.Program, cases []nativeCase, workDir string, race 
 			sb.WriteString("}},\n")
 		}
 		sb.WriteString("\t}\n\t// harness scripts create files by relative name: never inside the repository\n\tif wd, err := os.Getwd(); err == nil {\n\t\tos.Setenv(\"VERIF_PKG_DIR\", wd)\n\t}\n\tif err := os.Chdir(t.TempDir()); err != nil {\n\t\tt.Fatal(err)\n\t}\n\tonly := -1\n\tif s := os.Getenv(\"VERIF_CASE\"); s != \"\" {\n\t\tonly, _ = strconv.Atoi(s)\n\t}\n")
-		sb.WriteString("\tfor i, c := range cases {\n\t\tif only >= 0 && i != only {\n\t\t\tcontinue\n\t\t}\n\t\tout, obs := vrt.Run(c.fn, c.vec)\n\t\tvrt.Report(c.h, i, out, obs)\n\t}\n}\n")
+		sb.WriteString("\tfor i, c := range cases {\n\t\tif only >= 0 && i != only {\n\t\t\tcontinue\n\t\t}\n\t\tout, obs := vrt.Run(c.fn, c.vec)\n\t\tfor r := 1; r < c.reps && out == \"ok\"; r++ {\n\t\t\tout, obs = vrt.Run(c.fn, c.vec)\n\t\t}\n\t\tvrt.Report(c.h, i, out, obs)\n\t}\n}\n")
 		tag := strings.ReplaceAll(pkg, "/", "_")
 		if tag == "" {
 			tag = "root"
